@@ -423,16 +423,6 @@ std::vector<Node::ControlEndpoint> Node::preferred_control_endpoints() const {
         }
     };
 
-    auto append_self_endpoint = [&]() {
-        const auto self = self_endpoint();
-        if (self.empty()) {
-            return;
-        }
-        if (const auto parsed = parse_endpoint(self)) {
-            append(parsed->first, parsed->second, false);
-        }
-    };
-
     if (!config_.advertised_endpoints.empty()) {
         for (const auto& endpoint : config_.advertised_endpoints) {
             const auto port = endpoint.port != 0 ? endpoint.port : fallback_port;
@@ -447,13 +437,18 @@ std::vector<Node::ControlEndpoint> Node::preferred_control_endpoints() const {
         }
     }
 
-    for (const auto& candidate : config_.auto_advertise_candidates) {
-        const auto port = candidate.port != 0 ? candidate.port : fallback_port;
-        append(candidate.host, port, false);
-    }
-
-    if (transport_port != 0) {
-        append_self_endpoint();
+    // Auto-discovered candidates are published only as far as the auto-advertise policy allows:
+    // they already went through the private/reserved filter, and in warn mode conflicting
+    // candidates are withheld.  (The STUN-reported self endpoint is the "stun" candidate when
+    // the policy lets it through, so it is not appended separately.)
+    const bool candidates_withheld = config_.advertise_auto_mode == Config::AdvertiseAutoMode::Off ||
+                                     (config_.advertise_auto_mode == Config::AdvertiseAutoMode::Warn &&
+                                      config_.auto_advertise_conflict);
+    if (!candidates_withheld) {
+        for (const auto& candidate : config_.auto_advertise_candidates) {
+            const auto port = candidate.port != 0 ? candidate.port : fallback_port;
+            append(candidate.host, port, false);
+        }
     }
 
     return endpoints;
